@@ -43,6 +43,80 @@ Proof.
   - apply remove_under_sub_confined.
 Qed.
 
+(** ** Entries within one call: containment is decided for every entry from
+    that entry's own resolved name, whatever came before it in the archive *)
+
+Lemma unzip_entry_never_ok c f dir p : fst (unzip_entry c f dir p) <> Some XOk.
+Proof.
+  unfold unzip_entry. destruct (negb (in_dir dir (filepath_join [dir; e_name p]))); [discriminate|].
+  destruct (e_kind p).
+  - destruct (mkdir_all c f (dir_of (filepath_join [dir; e_name p])) perm_dir_default) as [ok f1].
+    destruct (negb ok); [discriminate|].
+    destruct (open_trunc c f1 (filepath_join [dir; e_name p]) perm_create_default) as [[[k pm] f2]|]; discriminate.
+  - destruct (mkdir_all c f (filepath_join [dir; e_name p]) (e_perm p)) as [ok f1]. destruct ok; discriminate.
+  - destruct (mkdir_all c f (dir_of (filepath_join [dir; e_name p])) perm_dir_default) as [ok f1].
+    destruct (negb ok); [discriminate|].
+    destruct (open_trunc c f1 (filepath_join [dir; e_name p]) perm_create_default) as [[[k pm] f2]|]; discriminate.
+Qed.
+
+Lemma untar_entry_never_ok c f dir p : fst (untar_entry c f dir p) <> Some XOk.
+Proof.
+  unfold untar_entry. destruct (negb (in_dir dir (filepath_join [dir; e_name p]))); [discriminate|].
+  destruct (e_kind p).
+  - destruct (if negb (is_empty (dir_of (filepath_join [dir; e_name p]))) &&
+                 negb (str_eqb (dir_of (filepath_join [dir; e_name p])) s_dot)
+              then mkdir_all c f (dir_of (filepath_join [dir; e_name p])) perm_dir_default
+              else (true, f)) as [ok f1].
+    destruct (negb ok); [discriminate|].
+    destruct (open_trunc c f1 (filepath_join [dir; e_name p]) (N.land (e_perm p) perm_mask)) as [[[k pm] f2]|]; discriminate.
+  - destruct (mkdir_all c f (filepath_join [dir; e_name p]) (e_perm p)) as [ok f1]. destruct ok; discriminate.
+  - discriminate.
+Qed.
+
+Theorem unzip_refuses_outside_anywhere c dir e rest : forall pre f,
+  in_dir dir (filepath_join [dir; e_name e]) = false ->
+  unzip_entries c f dir (pre ++ e :: rest) =
+  match fst (unzip_entries c f dir pre) with
+  | XOk => (XRefused, snd (unzip_entries c f dir pre))
+  | _ => unzip_entries c f dir pre
+  end.
+Proof.
+  induction pre as [|p pre IH]; intros f Hout.
+  - cbn [app unzip_entries fst snd]. unfold unzip_entry. now rewrite Hout.
+  - cbn [app unzip_entries]. pose proof (unzip_entry_never_ok c f dir p) as Hn.
+    destruct (unzip_entry c f dir p) as [[r|] f1].
+    + cbn [fst] in *. destruct r; try reflexivity. congruence.
+    + now apply IH.
+Qed.
+
+Theorem untar_refuses_outside_anywhere c dir e rest : forall pre f,
+  in_dir dir (filepath_join [dir; e_name e]) = false ->
+  untar c f dir (pre ++ e :: rest) =
+  match fst (untar c f dir pre) with
+  | XOk => (XRefused, snd (untar c f dir pre))
+  | _ => untar c f dir pre
+  end.
+Proof.
+  induction pre as [|p pre IH]; intros f Hout.
+  - cbn [app untar fst snd]. unfold untar_entry. now rewrite Hout.
+  - cbn [app untar]. pose proof (untar_entry_never_ok c f dir p) as Hn.
+    destruct (untar_entry c f dir p) as [[r|] f1].
+    + cbn [fst] in *. destruct r; try reflexivity. congruence.
+    + now apply IH.
+Qed.
+
+(** In particular after a directory entry that resolves to the destination
+    itself (ZipDir's archives start with "./"): the next entry is judged on
+    its own name. *)
+Corollary unzip_root_entry_then_outside c f dir root e rest :
+  in_dir dir (filepath_join [dir; e_name e]) = false ->
+  fst (unzip_entries c f dir (root :: e :: rest)) <> XOk.
+Proof.
+  intros Hout. change (root :: e :: rest) with ([root] ++ e :: rest).
+  rewrite (unzip_refuses_outside_anywhere c dir e rest [root] f Hout).
+  destruct (fst (unzip_entries c f dir [root])) eqn:E; cbn [fst]; try discriminate; rewrite E; discriminate.
+Qed.
+
 (** TarZipFile followed by the tar extractor: confined, whatever the zip
     file holds and whatever directory name TarZipFile is given. *)
 Theorem tar_zip_untar_confined c dir D sub zes :
@@ -279,3 +353,4 @@ Theorem tar_roundtrip c f dir D t :
     (forall r, lookup f' (D ++ r) = option_map (tar_node (umask c)) (lookup t r)) /\
     (forall k, is_prefix D k = false -> lookup f' k = lookup f k).
 Proof. intros Hwf Hd HD Hr. now apply (tar_roundtrip_in_section c f dir D Hd HD Hr). Qed.
+
